@@ -58,6 +58,9 @@ def gen_world(rng, fmt=None, apdep=None, n_models=(1, 8), n_ap=(1, 5), n_wav=(5,
     if w['format'] == 2 and w['dtype'] == 'f8':
         w['flux_unit'] = rng.choice(['mJy', 'Jy'])         # cubes hold flux densities
     w['ext_n'] = rng.choice([3, 8, 40])
+    # units in which the user states aperture radii and the distance range (any angle / length unit is legal)
+    w['ap_unit'] = rng.choice(['arcsec', 'arcsec', 'arcmin', 'deg', 'mas'])
+    w['d_unit'] = rng.choice(['kpc', 'kpc', 'pc', 'cm', 'lyr'])
     # one model may have exactly zero flux where one filter is sensitive (a legal grid: sedfitter treats a zero
     # convolved flux as 'invalid'); its fits come out non-finite and sit among finite ones in every result
     w['zero_band'] = [rng.randrange(w['n_models']), rng.randrange(nf)] if (allow_zero_band and w['n_models'] > 1 and rng.random() < 0.25) else None
@@ -114,7 +117,7 @@ class World(object):
         seen = set()
         gn = np.random.default_rng(spec.get('name_seed', spec['array_seed'] + 101))
         while len(names) < nm:
-            L = int(gn.integers(3, 11))
+            L = int(gn.integers(3, 11)) if gn.random() < 0.8 else int(gn.integers(24, 31))     # up to the 30-character column limit
             s = ''.join(_ALPHA[int(k)] for k in gn.integers(0, len(_ALPHA), L))
             if s not in seen and not any(s.startswith(t) or t.startswith(s) for t in seen):
                 seen.add(s)
